@@ -362,6 +362,111 @@ pub fn cuckoo_run(bucketsize: usize, n_buckets: usize, l: usize, kind: usize, ta
     vs
 }
 
+/// Cuckoo unions with SPARSE right operands, exhaustive over the position and value of the transferred
+/// fingerprint: for every bucket and every fingerprint of a structured set (all values for l <= 7; powers of two,
+/// their neighbours, low-bits-zero values and the extremes otherwise) the single-element filter {key} is united
+/// into an empty filter and into a filter holding one other key. Fingerprint widths that do not divide 64 make
+/// table entries straddle the 64-bit storage blocks; a nearly empty operand exercises block-skipping walks.
+pub fn cuckoo_sparse_unions(bucketsize: usize, n_buckets: usize, l: usize, stats: &mut MStats) -> Vec<Viol> {
+    let mut vs = vec![];
+    verif_kick_budget(None);
+    let xmod = if l == 64 { u64::MAX } else { (1u64 << l) - 1 };
+    let nb = n_buckets as u64;
+    let alt = move |f: u64| (f.wrapping_mul(0x9E37) >> 3) % nb;
+    let hasher = TableHasher::new(0xCC00 ^ (l as u64) << 8 ^ nb, move |ev: Ev| match (ev.iv, ev.tagged, ev.key) {
+        (Some(0), true, Some(k)) => k % xmod,
+        (Some(1), true, Some(k)) => (k / xmod.min(1 << 20)) % nb + nb * 12,
+        (Some(1), false, Some(f)) => alt(f),
+        other => panic!("medium cuckoo hasher: {:?}", other),
+    });
+    let fresh = || CuckooFilter::<Key, ChoiceRng, TableHasher>::with_params_and_hash(ChoiceRng, bucketsize, n_buckets, l, hasher.clone());
+    // fingerprints
+    let mut fps: Vec<u64> = vec![];
+    if l <= 7 {
+        fps.extend(1..=xmod);
+    } else {
+        for j in 0..l.min(63) {
+            for d in [0i64, -1, 1] {
+                let v = (1u64 << j).wrapping_add(d as u64);
+                if v >= 1 && v <= xmod {
+                    fps.push(v);
+                }
+            }
+            let v = !((1u64 << j) - 1) & xmod; // low j bits zero, everything above set
+            if v >= 1 {
+                fps.push(v);
+            }
+        }
+        fps.extend([xmod, xmod - 1, xmod / 2, xmod / 3]);
+        fps.sort_unstable();
+        fps.dedup();
+    }
+    let lognb = nb.trailing_zeros();
+    // key with fingerprint f whose first bucket is i1 (None if the two constraints clash for wide fingerprints)
+    let key_for = |f: u64, i1: u64| -> Option<u64> {
+        if xmod <= (1 << 20) {
+            Some((f - 1) + xmod * i1)
+        } else {
+            let k = f - 1;
+            if (k >> 20) % nb == i1 { Some(k) } else {
+                // replace the bucket bits of k by i1: a different fingerprint, still structured
+                let k2 = (k & !(((nb - 1) as u64) << 20)) | (i1 << 20);
+                if k2 < xmod && lognb < 40 { Some(k2) } else { None }
+            }
+        }
+    };
+    let cfg = json!({"structure": "CuckooFilter", "bucketsize": bucketsize, "n_buckets": n_buckets, "l_fingerprint": l, "what": "single-element right operands, every bucket x structured fingerprints"});
+    let other_key = key_for(1.max(xmod / 5), nb - 1).unwrap_or(0);
+    for &f in &fps {
+        for i1 in 0..nb {
+            let k = match key_for(f, i1) { Some(k) => k, None => continue };
+            for with_other in [false, true] {
+                if with_other && k == other_key {
+                    continue;
+                }
+                stats.ops += 1;
+                chooser::begin_with(&[], Tail::Zero, 0);
+                let r = mccore::panics::catch(|| {
+                    let mut b = fresh();
+                    let ins = b.insert(&Key(k));
+                    let mut a = fresh();
+                    if with_other {
+                        let _ = a.insert(&Key(other_key));
+                    }
+                    let u = a.union(&b);
+                    (ins.is_ok(), u.is_ok(), a.query(&Key(k)), a.len(), a.verif_table().iter().filter(|&&x| x != 0).count(), !with_other || a.query(&Key(other_key)))
+                });
+                chooser::end();
+                stats.comparisons += 1;
+                let want_len = 1 + with_other as usize;
+                let sig = format!("medium cuckoo({},{},{}) sparse union", bucketsize, n_buckets, l);
+                match r {
+                    Err(p) => {
+                        vs.push(viol("C06", format!("{} panics", sig), format!("key {} (fingerprint {:#x}, bucket {}): {}", k, 1 + k % xmod, i1, p), cfg.clone()));
+                        return vs;
+                    }
+                    Ok((ins, u, q, len, nz, qo)) => {
+                        if !ins || !u {
+                            vs.push(viol("C06", format!("{} fails", sig), format!("key {}: insert into an empty filter ok = {}, union of a one-element filter ok = {}", k, ins, u), cfg.clone()));
+                            return vs;
+                        }
+                        if !q || !qo {
+                            vs.push(viol("C01", format!("{} false negative", sig), format!("{{{}}} united into {}: key {} (fingerprint {:#x}, first bucket {}) present = {}, the other key present = {}", k, if with_other { "a one-element filter" } else { "an empty filter" }, k, 1 + k % xmod, i1, q, qo), cfg.clone()));
+                            vs.push(viol("C06", format!("{} differs from both streams", sig), format!("{{{}}} united into {}: key {} (fingerprint {:#x}, first bucket {}) present = {}", k, if with_other { "a one-element filter" } else { "an empty filter" }, k, 1 + k % xmod, i1, q), cfg.clone()));
+                            return vs;
+                        }
+                        if len != want_len || nz != want_len {
+                            vs.push(viol("C06", format!("{} len", sig), format!("{{{}}} united into a filter of {} elements: len() = {}, occupied slots = {}", k, want_len - 1, len, nz), cfg.clone()));
+                            return vs;
+                        }
+                    }
+                }
+            }
+        }
+    }
+    vs
+}
+
 /// Bloom filter (SipHash): no false negatives for long structured streams, union == both.
 pub fn bloom_run(m: usize, k: usize, kind: usize, stats: &mut MStats) -> Vec<Viol> {
     let mut vs = vec![];
@@ -447,6 +552,7 @@ pub fn run_all(which: &[&str], thorough: bool, threads: usize) -> (MStats, Vec<V
         Cu(usize, usize, usize, usize, u8),
         Bl(usize, usize, usize),
         Cm(usize, usize, usize),
+        CuSparse(usize, usize, usize),
     }
     let fams: Vec<usize> = if thorough { (0..N_FAMILIES).collect() } else { vec![0, 3] };
     let mut jobs: Vec<J> = vec![];
@@ -476,6 +582,11 @@ pub fn run_all(which: &[&str], thorough: bool, threads: usize) -> (MStats, Vec<V
             }
         }
     }
+    if which.contains(&"cuckoo") {
+        for &(b, nb, l) in &[(2usize, 8usize, 3usize), (2, 8, 5), (3, 8, 7), (2, 16, 11), (4, 4, 13), (2, 8, 33), (3, 4, 63), (2, 8, 64), (2, 8, 8)] {
+            jobs.push(J::CuSparse(b, nb, l));
+        }
+    }
     let res = crate::par::par_map(&jobs, threads, |j| {
         let mut st = MStats::default();
         let v = match j {
@@ -483,6 +594,7 @@ pub fn run_all(which: &[&str], thorough: bool, threads: usize) -> (MStats, Vec<V
             J::Cu(b, nb, l, k, t) => cuckoo_run(*b, *nb, *l, *k, [Tail::Zero, Tail::Max, Tail::Alternate][*t as usize], &mut st),
             J::Bl(m, k, f) => bloom_run(*m, *k, *f, &mut st),
             J::Cm(w, d, k) => cms_run(*w, *d, *k, &mut st),
+            J::CuSparse(b, nb, l) => cuckoo_sparse_unions(*b, *nb, *l, &mut st),
         };
         (st, v)
     });
